@@ -23,7 +23,7 @@ SIM_LIST = sorted(simcases.WITH_TRANSMISSIONS)
 
 
 def plan(tier):
-    n = 1500 if tier == "quick" else 60000
+    n = 6000 if tier == "quick" else 200000
     return [(s, n) for s in SIM_LIST]
 
 
